@@ -258,7 +258,12 @@ def outcome_key(res):
     e = val
     if isinstance(e, CIMError):
         return ('exc', 'CIMError', e.status_code, e.status_description)
-    return ('exc', type(e).__name__, str(e))
+    try:
+        text = str(e)
+    except Exception as x:  # pylint: disable=broad-except
+        # (an exception object that cannot be formatted is compared by type)
+        text = '<str() raised %s>' % type(x).__name__
+    return ('exc', type(e).__name__, text)
 
 
 def _eq(a, b):
